@@ -295,7 +295,7 @@ func runOptions(ctx *RunCtx) *Result {
 			case 0, 1:
 				toks = append(toks, "${"+Pick(c, names)+"}")
 			case 2:
-				toks = append(toks, Pick(c, []string{"${option.unknown}", "${job.other}", "${task.}", "${option.a", "${unknown}", "${task.x.y}", "$", "{}", "${jobconfig.}x}"}))
+				toks = append(toks, Pick(c, []string{"${option.unknown}", "${job.other}", "${task.}", "${option.a", "${unknown}", "${task.x.y}", "$", "{}", "${jobconfig.}x}", "${option.dry-run}", "${task.index_matrix.target-env}", "${job.un known}", "${option.a/b}"}))
 			default:
 				toks = append(toks, Pick(c, []string{"echo ", "-", " ", "abc", ":", "/"}))
 			}
@@ -478,7 +478,7 @@ func runAdmitCase(c *PRNG, res *Result, sc *SimContext, mut *mutation.Mutator) {
 	// the template: args mention options, contexts and unknown names
 	var targets []string
 	pool := []string{"${option.a}", "${option.b}", "${option.long_name}", "${option.x}", "${option.ghost}", "${job.name}", "${job.type}",
-		"${jobconfig.name}", "${jobconfig.uid}", "${task.retry_index}", "${task.index_num}", "${job.max_attempts}", "${other.var}", "${HOME}", "$(date)", "-", "echo ", "${task.nope}"}
+		"${jobconfig.name}", "${jobconfig.uid}", "${task.retry_index}", "${task.index_num}", "${job.max_attempts}", "${other.var}", "${HOME}", "$(date)", "-", "echo ", "${task.nope}", "${option.dry-run}", "${task.index_matrix.target-env}"}
 	for k := 0; k < 1+c.Intn(3); k++ {
 		t := ""
 		for m := 0; m < 1+c.Intn(4); m++ {
@@ -605,8 +605,8 @@ func runAdmitCase(c *PRNG, res *Result, sc *SimContext, mut *mutation.Mutator) {
 			}
 		}
 		for i, t := range targets {
-			if (t == "${option.ghost}" || t == "${task.nope}") && rendered[i] != "" {
-				if _, ok := explicit["option.ghost"]; !ok || t == "${task.nope}" {
+			if (t == "${option.ghost}" || t == "${task.nope}" || t == "${option.dry-run}" || t == "${task.index_matrix.target-env}") && rendered[i] != "" {
+				if _, ok := explicit["option.ghost"]; !ok || t != "${option.ghost}" {
 					hit("C18/reserved-unknown-not-blank", fmt.Sprintf("%s rendered %q", t, rendered[i]))
 				}
 			}
